@@ -2761,6 +2761,25 @@ def rule_X4_header_call(F, R):
         if not seen: R.violation('rsbdd::main / X4 / header of the table', 'X4', 'the table printer is reached without print_header having been called before it', x.get('loc'))
     visit(main['body'], False)
 
+def rule_X12_outcome(F, R):
+    """C10: the result column says what the row's leaf is: where the row printer turns the leaf into text, True reads `True` and False `False`"""
+    binc = F.bin()
+    t = binc.ithir.get('rsbdd::print_sized_line')
+    if t is None:
+        R.count('X12:outcome-text'); return
+    shown = {}
+    for m_ in walk(t['body']):
+        if m_['k'] != 'Match': continue
+        for a_ in m_['arms']:
+            q_ = unwrap_pat(a_['pat'])
+            if q_['k'] == 'Variant' and canon(q_.get('adt', '')) == BDD and q_['variant'] in ('True', 'False'):
+                lits = [x['value'] for x in walk(a_['body']) if x['k'] == 'Literal' and x.get('lit') == 'Str']
+                if lits: shown[q_['variant']] = lits
+    ok = True
+    if shown: ok = shown.get('True') == ['True'] and shown.get('False') == ['False']
+    R.count('X12:outcome-text'); R.obligation(ok, 'X12 outcome text')
+    if not ok: R.violation('rsbdd::print_sized_line / X12 / result column', 'X12', 'the result column must read True for the true leaf and False for the false leaf; found %s' % shown, t['span']['loc'])
+
 def rule_X12_header(F, R):
     """C10: the header names the columns: print_header walks its labels and writes each one to standard output (a header whose loop no
     longer prints the label leaves the table without column names)"""
@@ -3103,6 +3122,23 @@ def rule_X8_flush(F, R, crate_name):
     t = c.ithir.get(crate_name + '::main') if c else None
     if t is None:
         R.violation('%s::main / X8 / anchor' % crate_name, 'UNDECIDABLE', 'main not found'); return
+    # every piece of text written is written or the run fails: the outcome of each write!/writeln! of main is propagated (`?`, or the function's value)
+    tried_w = set()
+    for e in walk(t['body']):
+        if e['k'] == 'Match' and 'TryDesugar' in str(e.get('source')):
+            for x in walk(e['scrutinee']): tried_w.add(id(x))
+    tail_w = t['body']
+    while tail_w['k'] in ('Use', 'NeverToAny'): tail_w = tail_w['source']
+    if tail_w['k'] == 'Block' and tail_w.get('expr') is not None:
+        for x in walk(tail_w['expr']): tried_w.add(id(x))
+    for e in walk(t['body']):
+        if e['k'] == 'Return' and e.get('value') is not None:
+            for x in walk(e['value']): tried_w.add(id(x))
+    writes_ = [e for e in walk(t['body']) if e['k'] == 'Call' and (callee_name(e) or '').endswith('write_fmt') and e['args'] and 'Stderr' not in str((e['args'][0].get('ty') or {}).get('s')) and 'String' not in str((e['args'][0].get('ty') or {}).get('s'))]
+    dropped_ = [e for e in writes_ if id(e) not in tried_w]
+    R.count('X8:writes-propagated', len(writes_)); R.obligation(not dropped_, 'X8 writes propagated ' + crate_name)
+    for e in dropped_[:3]:
+        R.violation('%s::main / X8 / outcome of a write dropped' % crate_name, 'X8', 'the outcome of a write to the output is not propagated: a failed write leaves a partial formula behind and the run goes on', e.get('loc'))
     bufs = [e for e in walk(t['body']) if e['k'] == 'Call' and (callee_name(e) or '') in ('std::io::BufWriter::new', 'std::io::BufWriter::with_capacity', 'std::io::LineWriter::new')]
     if not bufs:
         R.count('X8:flushes'); R.obligation(True, 'X8 flush (unbuffered) ' + crate_name); return
